@@ -359,6 +359,16 @@ func (v *VServer) Expire(tx bool, id string) {
 	}
 }
 
+// FireOnly makes the timer of a transmit transaction "have fired" without delivering its notification yet: the
+// callback of a real timer runs on its own goroutine and may reach the loop's queue after a datagram that was
+// received in the meantime. Call Expire later to deliver the (then possibly stale) notification.
+// Only while the loop is idle (no concurrent access to the table).
+func (v *VServer) FireOnly(id string) {
+	if t, ok := v.S.txTrans[id]; ok && t.timer != nil {
+		t.timer.Stop()
+	}
+}
+
 func (v *VServer) RxIDs() []string {
 	var out []string
 	for k := range v.S.rxTrans {
